@@ -54,15 +54,15 @@ type DirEnt struct {
 }
 
 type Op struct {
-	K    string   `json:"k"` // load unload line gc scan mark
-	Prog string   `json:"prog,omitempty"`
+	K    string `json:"k"` // load unload line gc scan mark
+	Prog string `json:"prog,omitempty"`
 	// mark: Metric.ExpireDatum(Exp, Labels...) on the M-th metric of Prog's running vm
 	M      int      `json:"m,omitempty"`
 	Labels []string `json:"labels,omitempty"`
 	Exp    int64    `json:"exp,omitempty"`
-	Src  int      `json:"src,omitempty"`
-	Line string   `json:"line,omitempty"`
-	Dir  []DirEnt `json:"dir,omitempty"`
+	Src    int      `json:"src,omitempty"`
+	Line   string   `json:"line,omitempty"`
+	Dir    []DirEnt `json:"dir,omitempty"`
 	// observed
 	Err string `json:"err,omitempty"` // load: "" | error text
 }
